@@ -146,6 +146,8 @@ pub fn c10(a: &Args) -> Report {
             push_pair(&mut specs, mk(false), mk(true));
         }
     }
+    // ignore(case) on a regex / skip that includes subpatterns: the flag reaches the included text
+    specs.extend(c11_specs(a.tier).into_iter().filter(|s| !s.subpatterns.is_empty() && s.pats.iter().any(|p| p.icase)));
     run_specs(&mut rep, &a.prop, &specs, EQUIV_TAGS, true);
     // "nothing else about the definition changes"
     let obs: Vec<_> = specs.par_iter().map(|s| common::observe(s, false).1).collect();
